@@ -3,7 +3,7 @@ model (`Model/Mixins.lean`) and the independent spec (`Spec/Mixins.lean`).
 
 A case is a class table (bases as written + namespaces); the driver gets exactly the JSON from which `run_impl`
 builds the real classes with `types.new_class`, so the abstract case *is* the program."""
-import itertools, json, types as _types, typing, functools, inspect
+import enum as enum_mod, itertools, json, types as _types, typing, functools, inspect
 from abc import ABC
 
 RULE = ('class tables built with types.new_class.  GenericMixin: every shape family (direct Generic[T1..Tn] with the mixin '
@@ -29,6 +29,15 @@ RULE = ('class tables built with types.new_class.  GenericMixin: every shape fam
         '@dataclass instances — declared by the root classes, by every class, or by the sub classes only —, eight instances created first '
         '(parametrised, unparametrised, binding, non-generic) and then queried: every instance alone, every ordered pair (i, j, i), seeded longer '
         'sequences; random tables carry the same flags now and then; '
+        'HIERARCHIES OF DEPTH >= 3 (fam "hier-*"): a binding subclass is subclassed AGAIN and the sub class declares Generic[...] of its own — '
+        'Repo(Generic[T1..Tn], GenericMixin) / UserRepo(Repo[..]) / Cached(UserRepo, Generic[K..]) with K a variable of its own, T1 again, or two '
+        'variables / PlainUser(UserRepo) / Cached2(PlainUser, Generic[K..]) / Twice(Cached[..]) / Again(Twice, Generic[M]) / Final(Again[..]) / '
+        'PlainCached(Cached) / OtherRepo(Marker, Repo[..]) / Cached3(OtherRepo, Generic[K..]) with a second marker at every position, both orders of '
+        'the root\'s bases, n = 1, 2 — 17 instances (parametrised twice with different arguments, unparametrised, binding, plain) created first and '
+        'then queried: every instance alone, every ordered pair of instances as (i, j, i) — parent first / child first / siblings — (all pairs for own '
+        'type variables, a seeded half otherwise; all in the thorough tier), seeded longer sequences; plus seeded hierarchies grown class by class from '
+        'one root (bind / bind partially / subclass plainly / declare Generic[...] again over a class whose parameters are all bound, 3-9 classes) with '
+        'seeded histories of 2-9 queries; single queries on re-declared classes in the random tables; '
         'near misses: partially binding subclasses, re-declared Generic, two bound bases, diamonds, builtin aliases '
         '(List[int]) as bases) x n = 1..4 x type arguments from a 15-element vocabulary (enumerated for the small '
         'families, seeded otherwise) + seeded random tables of 1-6 classes.  WithDecoratedMethods: classes with 0-6 '
@@ -40,7 +49,11 @@ RULE = ('class tables built with types.new_class.  GenericMixin: every shape fam
         'transformation), calls it for a seeded subset of the applications FIRST (in seeded order, together with further calls of the same factory with '
         'other arguments that are never applied), applies the stored decorators later, and calls the factory on the spot for the remaining applications in '
         'between (`d1 = foo(1); d2 = foo(2); @d1 def a; @foo(3) def b; @d1 def c`) x an unrelated mixin with __init_subclass__ hooks next to '
-        'WithDecoratedMethods[...].  non-trivial = the instance answers with a mapping '
+        'WithDecoratedMethods[...] x ENUM VALUES THAT ARE ATTRIBUTE NAMES of the objects the scan meets anyway (upper, join: the str that class_name '
+        'returns and the StrEnum class; get, keys: the dict that type_vars returns; real: an int class attribute; __doc__, __name__, __wrapped__: '
+        'functions — the case carries what the enum class / a str / a dict / a function / every other object of the namespaces answers to by itself, '
+        'read off stand-in objects of the same types) x THE INSTANCE __dict__ (functions decorated outside the classes and other objects stored by '
+        '__init__ under fresh names, a dunder name, names of methods they shadow).  non-trivial = the instance answers with a mapping '
         'or at least one decorator application exists')
 EXHAUSTIVE = {'quick': False, 'thorough': False}
 ASSUMPTIONS = ['a class subscribed like typing.Sequence (typing._GenericAlias with a _name) is generated only in front of another typing alias: when none '
@@ -50,8 +63,15 @@ ASSUMPTIONS = ['a class subscribed like typing.Sequence (typing._GenericAlias wi
                'extra parametrised mixin bases of a directly generic class are user generic classes (typing aliases `Labelled[str]`) at every position '
                'and subscripted classes without __orig_bases__ (types.GenericAlias, the stand-in for list[int]) before Generic[...] only: typing keeps '
                '`Generic` among the bases when only a types.GenericAlias follows it, which the class-table model of __mro_entries__ does not describe',
-               'enum values of DecoratorType members are attribute names that no other object reachable from the instance carries '
-               '(guard `decoGuard`; collisions are generated and compared but reported only)']
+               'inside `decoGuard`: enum values of DecoratorType members are attribute names that no other object reachable from the instance carries — '
+               'neither in its __dict__ nor by its type (the case lists what str / dict / the enum class / functions / the other objects answer to); '
+               'outside the guard every deviation from "exactly the decorated bound methods" is a property failure attributed to the named region of the '
+               'spec (`guardRegions`) it falls into — a finding id of known_findings.json — as long as model and implementation agree',
+               'names in the instance __dict__ are fresh names or names of plain methods (never of properties: a data descriptor would win)',
+               'functools.wraps-style transformations are not generated together with dunder enum values (__name__, __doc__, __wrapped__: wraps '
+               'writes these itself)',
+               'a history model that abstains: when the generated facts list a place where the library can leave state behind (leftBehind), the model '
+               'answers no query but the first']
 TRUSTED = ['issubclass(origin, GenericMixin) is modelled as reachability through __bases__ (for a class the interpreter created the MRO consists of '
            'exactly these classes); the driver checks on every case that this agrees with membership in the MRO it computes, which is compared '
            'with __mro__',
@@ -68,6 +88,10 @@ VOCAB_SRC = ['int', 'str', 'float', 'bool', 'bytes', 'typing.List[int]', 'typing
              'typing.Callable[[int], str]']
 NVOC = len(VOCAB_SRC)
 MEMBER_VAL = 9000                         # value id of "the i-th member object of the enum"
+UNKNOWN_VAL = 9999                        # value id of "some object that is no decorator argument of the program" (a str method, a name, …)
+# enum values that are attribute names of the objects the scan of get_decorated_functions meets anyway: str (the value of class_name; the
+# StrEnum class that type_var returns), dict (the value of type_vars), int, functions / bound methods
+ATTR_VOCAB = ['upper', 'join', 'get', 'keys', 'real', '__doc__', '__name__', '__wrapped__']
 
 
 # ------------------------------------------------------------------------------------------------ abstract builders
@@ -471,7 +495,7 @@ def random_table(rng):
     ncls = rng.randint(1, 6)
     for k in range(ncls):
         cid = LIB + k
-        kind = rng.choice(['root', 'root', 'bind', 'bind', 'bind', 'plainsub', 'partial', 'mixin', 'multi', 'user', 'cgi', 'foreign'])
+        kind = rng.choice(['root', 'root', 'bind', 'bind', 'bind', 'plainsub', 'partial', 'mixin', 'multi', 'user', 'cgi', 'foreign', 'redecl'])
         cand = [LIB + i for i in range(k) if arity[i] is not None and arity[i] > 0]
         mixins = [LIB + i for i in range(k) if arity[i] is None and LIB + i not in cgis]
         if kind == 'root' or (kind in ('bind', 'partial') and not cand):
@@ -488,7 +512,18 @@ def random_table(rng):
                     gpos = next(i for i, b in enumerate(bases) if b[0] == 'generic')
                     bases.insert(rng.randrange(gpos + 1) if f in cgis else rng.randrange(len(bases) + 1), P(f, fa))
             table.append(cls_(bases)); arity.append(n)
-        elif kind == 'foreign':
+        elif kind == 'redecl' and any(a == 0 for a in arity):
+            # a class whose parameters are all bound is subclassed again and the sub class declares Generic[...] of its own:
+            #   class Cached(UserRepo, Generic[K])  over  class UserRepo(Repo[User])
+            b = rng.choice([LIB + i for i in range(k) if arity[i] == 0])
+            n = rng.choice([1, 1, 2]); tvs = rng.sample(range(1, NTV + 1), n)
+            bases = [PL(b), G(tvs)]
+            if mixins and rng.random() < 0.3: bases.insert(rng.randrange(3), PL(rng.choice(mixins)))
+            if valid(table + [cls_(bases)]):
+                table.append(cls_(bases)); arity.append(n)
+            else:
+                table.append(cls_([PL(b)])); arity.append(0)
+        elif kind in ('foreign', 'redecl'):
             n = rng.choice([1, 1, 2]); tvs = rng.sample(range(1, NTV + 1), n)
             table.append(cls_([G(tvs)])); arity.append(None); foreign[cid] = n
         elif kind == 'mixin':
@@ -606,6 +641,129 @@ def history_cases(rng, tier):
     return out
 
 
+# ------------------------------------------------------------------------------------------------ hierarchies of depth >= 3
+
+KS_KINDS = ['fresh', 'same', 'two']
+
+
+def hierarchy_table(rng, n, root_rev, ks_kind, marker_pos):
+    """a hierarchy in which binding subclasses are subclassed AGAIN and the sub class declares `Generic[...]` of its own:
+
+        class Repo(Generic[T1..Tn], GenericMixin)        class Marker        class Marker2
+        class UserRepo(Repo[..])                          binds every parameter
+        class Cached(UserRepo, Generic[K..])              K: a variable of its own / T1 again / two variables (K, T1)
+        class PlainUser(UserRepo)                         plain subclass of the binding subclass
+        class Cached2(PlainUser, Generic[K..])            … re-declared over that
+        class Twice(Cached[..])                           binds the re-declared parameters
+        class Again(Twice, Generic[M])                    depth 5: re-declared once more (M = T1 when K is not, K otherwise)
+        class PlainCached(Cached)                         plain subclass of the re-declaring class (only `PlainCached()` exists)
+        class OtherRepo(Marker, Repo[..])                 a sibling binding with other arguments
+        class Cached3(<Marker2 at marker_pos> OtherRepo, Generic[K..])
+        class Final(Again[..])                            depth 6: binds the parameter declared at depth 5
+
+    returns (table, instances)"""
+    tvs = list(range(1, n + 1))
+    ks = {'fresh': [NTV], 'same': [1], 'two': [NTV, 1]}[ks_kind]
+    ms = [NTV] if ks_kind == 'same' else [1]
+
+    def args(k): return [ty(rng.randrange(NVOC)) for _ in range(k)]
+    repo, marker, marker2, user, cached, plainuser, cached2, twice, again, plaincached, other, cached3, final = range(LIB, LIB + 13)
+    c3 = [PL(other), G(ks)]
+    c3.insert(marker_pos, PL(marker2))
+    t = [cls_([PL(GM_ID), G(tvs)] if root_rev else [G(tvs), PL(GM_ID)]), cls_([]), cls_([]), cls_([P(repo, args(n))]), cls_([PL(user), G(ks)]),
+         cls_([PL(user)]), cls_([PL(plainuser), G(ks)]), cls_([P(cached, args(len(ks)))]), cls_([PL(twice), G(ms)]), cls_([PL(cached)]),
+         cls_([PL(marker), P(repo, args(n))]), cls_(c3), cls_([P(again, args(1))])]
+    insts = [[repo, args(n)], [repo, None], [user, None], [cached, args(len(ks))], [cached, args(len(ks))], [cached, None],
+             [plainuser, None], [cached2, args(len(ks))], [cached2, None], [twice, None], [again, args(1)], [again, None],
+             [plaincached, None], [other, None], [cached3, args(len(ks))], [cached3, None], [final, None]]
+    return t, insts
+
+
+def random_hierarchy(rng):
+    """a seeded hierarchy grown class by class from one generic root: a class with open parameters is bound (now and then partially),
+    a class whose parameters are all bound is subclassed with a `Generic[...]` of its own (own variable or one used further up; the
+    declaration before / after the base; a plain mixin somewhere), any class is subclassed plainly — 3 to 9 classes, then 3-9 instances
+    and a history of 2-9 queries over them"""
+    table = [cls_([])]                              # LIB: a plain mixin
+    state = [None]                                  # None | ['open', n] | ['bound'] | ['plainopen']
+    marker = LIB
+    n = rng.randint(1, 3)
+    root = [G(rng.sample(range(1, NTV + 1), n)), PL(GM_ID)]
+    if rng.random() < 0.4: root.reverse()
+    table.append(cls_(root)); state.append(['open', n])
+    for _ in range(rng.randint(2, 7)):
+        users = [i for i, st in enumerate(state) if st is not None]
+        # prefer the classes created last: deep chains
+        b = users[-1] if rng.random() < 0.55 else rng.choice(users)
+        st = state[b]; bid = LIB + b
+        r = rng.random()
+        if st[0] == 'open':
+            if r < 0.65:
+                bases = [P(bid, [ty(rng.randrange(NVOC)) for _ in range(st[1])])]; new = ['bound']
+            elif r < 0.8 and st[1] >= 2:
+                keep = rng.randrange(st[1])
+                bases = [P(bid, [tv(rng.randint(1, NTV)) if i == keep else ty(rng.randrange(NVOC)) for i in range(st[1])])]; new = ['open', 1]
+            else:
+                bases = [PL(bid)]; new = ['plainopen']
+        else:
+            if r < 0.7 or st[0] == 'plainopen' and r < 0.8:
+                k = rng.choice([1, 1, 2])
+                bases = [PL(bid), G(rng.sample(range(1, NTV + 1), k))]; new = ['open', k]
+                if rng.random() < 0.15: bases.reverse()          # mostly refused by the interpreter (MRO)
+            else:
+                bases = [PL(bid)]; new = list(st)
+        if rng.random() < 0.25:
+            bases.insert(rng.randrange(len(bases) + 1), PL(marker))
+        if valid(table + [cls_(bases)]):
+            table.append(cls_(bases)); state.append(new)
+    if rng.random() < 0.1:
+        for cd in rng.sample(table, rng.randint(1, len(table))):
+            cd['eq'] = rng.choice(EQ_KINDS)
+        if not valid(table):
+            return None
+    insts = []
+    for i, st in enumerate(state):
+        if st is None: continue
+        if st[0] == 'open':
+            insts.append([LIB + i, [ty(rng.randrange(NVOC)) for _ in range(st[1])]])
+            if rng.random() < 0.5: insts.append([LIB + i, None])
+        else:
+            insts.append([LIB + i, None])
+    if len(insts) > 9:
+        insts = rng.sample(insts, 9)
+    qs = [rng.randrange(len(insts)) for _ in range(rng.randint(2, 9))]
+    return hcase(table, insts, qs, 'hier-random')
+
+
+def hierarchy_cases(rng, tier):
+    out = []
+    big = tier != 'quick'
+    for n in (1, 2):
+        for root_rev in (False, True):
+            for ks_kind in KS_KINDS:
+                t, insts = hierarchy_table(rng, n, root_rev, ks_kind, rng.randrange(3))
+                if not valid(t):
+                    continue
+                fam = 'hier-' + ks_kind
+                k = len(insts)
+                # every query alone; every ordered pair of instances of the hierarchy — parent first / child first / siblings — with the
+                # first one asked again afterwards (enumerated completely for own type variables, a seeded half of the pairs otherwise)
+                for i in range(k):
+                    out.append(hcase(t, insts, [i], fam))
+                pairs = [(i, j) for i in range(k) for j in range(k)]
+                if not big and ks_kind != 'fresh':
+                    pairs = rng.sample(pairs, len(pairs) // 2)
+                for i, j in pairs:
+                    out.append(hcase(t, insts, [i, j, i], fam))
+                for _ in range(60 if big else 10):
+                    out.append(hcase(t, insts, [rng.randrange(k) for _ in range(rng.randint(3, 9))], fam))
+    for _ in range(12000 if big else 1500):
+        c = random_hierarchy(rng)
+        if c is not None:
+            out.append(c)
+    return out
+
+
 # ------------------------------------------------------------------------------------------------ decorated cases
 
 MEMBER_POOL = [('FOO', '_foo'), ('BAR', '_bar'), ('BAZ', '_baz'), ('QUX', '_qux')]
@@ -623,6 +781,27 @@ class Keys:
     def __init__(self): self.ids = {}
     def __call__(self, s):
         return self.ids.setdefault(s, 100 + len(self.ids))
+    def name_of(self, k):
+        return next(s for s, i in self.ids.items() if i == k)
+
+
+class _ProtoHolder:
+    pass
+
+
+def _proto_method():
+    class _P:
+        def m(*a, **k): return None
+    return _P().m
+
+
+def proto_val(v):
+    return 3 if v is None else UNKNOWN_VAL          # None is decorator argument number 3
+
+
+def intrinsic(proto, values, keys, have=()):
+    """[[key, value id]…] for the enum values that `proto` (a stand-in of the same type as the object the scan will meet) answers to by itself"""
+    return [[keys(v), proto_val(getattr(proto, v))] for v in values if keys(v) not in have and hasattr(proto, v)]
 
 
 def deco_case(rng, feat=None):
@@ -632,6 +811,13 @@ def deco_case(rng, feat=None):
     members = [list(m) for m in MEMBER_POOL[:nm]]
     if feat == 'collision':
         members[rng.randrange(nm)][1] = members[rng.randrange(nm)][0]         # value == a member *name*
+    if feat == 'attrname':
+        # value == an attribute name of str / dict / int / functions (`class D(DecoratorType): UP = 'upper'`)
+        for i, v in zip(rng.sample(range(nm), rng.choice([1, 1, 2]) if nm > 1 else 1), rng.sample(ATTR_VOCAB, 2)):
+            members[i][1] = v
+    dunder_values = any(v.startswith('__') for _, v in members)
+    # setattr(f, '__name__', value) demands a str: the only str among the decorator arguments is number 5
+    str_only = {v for _, v in members if v == '__name__'}
     for _, v in members: keys(v)
     for _, v in FOREIGN: keys(v)
     mkeys = [keys(v) for _, v in members]
@@ -651,7 +837,9 @@ def deco_case(rng, feat=None):
             k = rng.choice(fkeys) if (allow_foreign and r < 0.1) else (apps[-1][0] if apps and r < 0.3 else rng.choice(mkeys))
             tr = rng.choice(['none', 'none', 'none', 'ident', 'wraps', 'wraps'])
             if allow_fresh and rng.random() < 0.5: tr = 'fresh'
-            apps.append([k, rng.randrange(NVALS), tr])
+            if dunder_values and tr not in ('none', 'ident'):
+                tr = 'none'          # functools.wraps writes __name__ / __doc__ / __wrapped__ itself: not part of the model of transformations
+            apps.append([k, 5 if keys.name_of(k) in str_only else rng.randrange(NVALS), tr])
         return apps
 
     def rand_ns(names, cid):
@@ -710,7 +898,35 @@ def deco_case(rng, feat=None):
             if shape == 'sub2':
                 over2 = [n for n in base_names + new if rng.random() < 0.25]
                 table.append(cls_([PL(LIB + 1)], rand_ns(over2, LIB + 2))); inst = LIB + 2
-    enum = {'members': mkeys, 'clsattrs': [[keys(n), MEMBER_VAL + i] for i, (n, _) in enumerate(members)]}
+    values = [v for _, v in members]
+    proto_enum = enum_mod.StrEnum('D', [(n, v) for n, v in members])
+    clsattrs = [[keys(n), MEMBER_VAL + i] for i, (n, _) in enumerate(members)]
+    enum = {'members': mkeys, 'clsattrs': clsattrs + intrinsic(proto_enum, values, keys, have=[k for k, _ in clsattrs]),
+            'strattrs': intrinsic('', values, keys), 'dictattrs': intrinsic({}, values, keys),
+            'fnattrs': intrinsic(_proto_method(), values, keys)}
+    # the other objects of the namespaces carry what their type defines as well
+    for cd in table:
+        for u, st, m in cd['ns']:
+            if m[0] == 'other':
+                proto = {1000: 42, 1001: 'const'}.get(m[1], _ProtoHolder())
+                m[2] += intrinsic(proto, values, keys, have=[k for k, _ in m[2]])
+    # the instance `__dict__`: `self.cb = decorated_function` / `self.helper = some_object` in `__init__`; a name may shadow a method
+    inst_entries = []
+    if feat == 'instattr' or rng.random() < 0.06:
+        methods = sorted({'_' * u + st for cd in table for u, st, m in cd['ns'] if m[0] == 'func' and m[1] == 'inst'}
+                         - {'_' * u + st for cd in table for u, st, m in cd['ns'] if not (m[0] == 'func' and m[1] == 'inst')})
+        cand = ['cb0', 'cb1', '_cb', '__cbd'] + methods
+        for nme in rng.sample(cand, min(len(cand), rng.randint(1, 3))):
+            u, st = split_name(nme)
+            r = rng.random()
+            if r < 0.6:
+                apps = [[rng.choice(mkeys if rng.random() < 0.6 else fkeys), 5 if dunder_values else rng.randrange(NVALS), 'none']
+                        for _ in range(rng.choice([0, 1, 1, 2]))]
+                inst_entries.append([u, st, ['fn', len(inst_entries), apps]])
+            else:
+                attrs = [[rng.choice(mkeys + fkeys), rng.randrange(NVALS)]] if rng.random() < 0.5 else []
+                attrs += intrinsic(_ProtoHolder(), values, keys, have=[k for k, _ in attrs])
+                inst_entries.append([u, st, ['obj', new_oid(), attrs]])
     # configured decorators that are STORED and applied later (`get_index = route('/index'); get_about = route('/about'); @get_index def index`):
     # the factory calls of the program are made first, in the order of `confs`; ["conf", k] applies the k-th of them; the applications left as
     # [type, value, transformation] call the (shared) factory on the spot, between the applications of stored ones
@@ -739,12 +955,14 @@ def deco_case(rng, feat=None):
     if shape in ('mixin-first', 'mixin-last') and rng.random() < 0.4:
         table[0]['hook'] = rng.choice(['nochain', 'chain'])
     return {'m': 'mixins',
-            'c': {'k': 'decorated', 'table': table, 'cls': inst, 'orig': None, 'enums': [[ENUM_TY, enum]], 'confs': confs},
+            'c': {'k': 'decorated', 'table': table, 'cls': inst, 'orig': None, 'enums': [[ENUM_TY, enum]], 'confs': confs,
+                  'inst': inst_entries},
             'x': {'fam': 'deco-' + (feat or 'plain') + '-' + shape, 'members': members, 'foreign': FOREIGN, 'style': style,
                   'keys': {str(v): k for k, v in keys.ids.items()}, 'ns': {str(k): v for k, v in xns.items()}}}
 
 
-FEATS = [None] * 10 + ['collision', 'static', 'prop', 'raising', 'holder', 'dunder', 'fresh', 'unparam', 'nonenum', 'stored', 'stored', 'stored']
+FEATS = [None] * 10 + ['collision', 'static', 'prop', 'raising', 'holder', 'dunder', 'fresh', 'unparam', 'nonenum', 'stored', 'stored', 'stored',
+                       'attrname', 'attrname', 'instattr', 'instattr']
 
 
 def deco_cases(rng, tier):
@@ -753,7 +971,7 @@ def deco_cases(rng, tier):
 
 
 def cases(rng, tier):
-    return generic_cases(rng, tier) + history_cases(rng, tier) + deco_cases(rng, tier)
+    return generic_cases(rng, tier) + history_cases(rng, tier) + hierarchy_cases(rng, tier) + deco_cases(rng, tier)
 
 
 def search(rng, tier, near):
@@ -763,6 +981,7 @@ def search(rng, tier, near):
         if c is not None: out.append(c)
     out += [deco_case(rng, rng.choice(FEATS)) for _ in range(3000)]
     out += history_cases(rng, 'quick')
+    out += hierarchy_cases(rng, 'quick')
     return out
 
 
@@ -910,6 +1129,9 @@ class DecoCtx:
         self.style = x.get('style', 'fresh')
         self.factories = {}          # (key, transformation kind) -> the one factory a program defines for it
         self.orphan_calls = []       # transformation calls whose function argument belongs to no known function
+        self.inst_cls = case['c']['cls']
+        self.inst_entries = case['c'].get('inst', [])
+        self.ifuncs = {}             # fid -> [function objects] of the functions stored in the instance __dict__
         # the factory calls of the program, in order: configured decorators that are stored
         self.stored = [self.factory_for(k, trk)(self.vals[v]) for k, v, trk in case['c'].get('confs', [])]
 
@@ -993,6 +1215,8 @@ class DecoCtx:
             else:
                 o = self.objs.setdefault(m[1], Holder())
                 for k, v in m[2]:
+                    if v == UNKNOWN_VAL or isinstance(o, (int, str)):
+                        continue         # what the object's type defines by itself (listed in the case, not set by the program)
                     setattr(o, self.keystr[k], self.vals[v])
                 kind = xe.get('okind', 'attr')
                 if kind == 'prop':
@@ -1004,6 +1228,28 @@ class DecoCtx:
                     ns[name] = property(getter)
                 else:
                     ns[name] = o
+        if cid == self.inst_cls and self.inst_entries:
+            # the instance __dict__: functions defined outside the classes (decorated there) and other objects, stored by __init__
+            entries = []
+            for u, st, v in self.inst_entries:
+                if v[0] == 'fn':
+                    f0 = self.mkfunc('_' * u + st, False)
+                    self.ifuncs[v[1]] = [f0]
+                    f = f0
+                    for k, val, _ in v[2]:
+                        f = self.create_decorator(self.member_by_key[k])(self.vals[val])(f)
+                    entries.append(('_' * u + st, f))
+                else:
+                    o = self.objs.setdefault(v[1], Holder())
+                    for k, val in v[2]:
+                        if val != UNKNOWN_VAL:       # (UNKNOWN_VAL: what the object's type defines by itself — listed, not set)
+                            setattr(o, self.keystr[k], self.vals[val])
+                    entries.append(('_' * u + st, o))
+
+            def __init__(self_, entries=entries):
+                for nme, val in entries:
+                    setattr(self_, nme, val)
+            ns['__init__'] = __init__
         return ns
 
     def enc_val(self, v):
@@ -1011,11 +1257,15 @@ class DecoCtx:
             if v is o: return i
         for i, m in enumerate(self.D):
             if v is m: return MEMBER_VAL + i
-        return -1
+        return UNKNOWN_VAL
 
     def enc_attr(self, a, inst, clss):
         if a is self.D:
             return ['typeArg', ['ty', ENUM_TY]]
+        if a is type(inst).__name__:
+            return ['className']
+        if isinstance(a, str) and hasattr(inst, a):
+            return ['nameStr', *split_name(a)]
         func = None; tag = None
         if inspect.ismethod(a):
             func = a.__func__
@@ -1027,6 +1277,14 @@ class DecoCtx:
                 for g, f in enumerate(chain):
                     if f is func:
                         return [tag, site[0], site[1], site[2], g]
+            for fid, chain in self.ifuncs.items():
+                for g, f in enumerate(chain):
+                    if f is func and tag == 'plainFn':
+                        return ['instFn', fid, g]
+            for cid, k in enumerate(clss[:LIB]):                 # a method of a library class (`_get_types`, `get_decorated_functions`)
+                for nme, val in vars(k).items():
+                    if val is func:
+                        return [tag, cid, *split_name(nme), 0]
             return [tag, -1, 0, getattr(func, '__name__', '?'), 0]
         for i, o in self.objs.items():
             if a is o: return ['obj', i]
@@ -1051,7 +1309,7 @@ class DecoCtx:
                     g = [i for i, f in enumerate(chain) if f is a]
                     if g: e.append(['fn', g[0]])
                     elif any(a is m for m in list(self.D) + list(self.F)): e.append(['ty', self.strkey[str(a.value)]])
-                    elif self.enc_val(a) >= 0: e.append(['val', self.enc_val(a)])
+                    elif self.enc_val(a) != UNKNOWN_VAL: e.append(['val', self.enc_val(a)])
                     else: e.append(['?', type(a).__name__])
                 if kwargs: e.append(['kwargs', sorted(kwargs)])
                 entries.append(e)
@@ -1114,18 +1372,71 @@ def judge_history(case, impl, model, fam):
     if impl['mros'] != model['mros']: why.append(f"__mro__ {impl['mros']} vs model {model['mros']}")
     tags = set()
     for k, (qi, a, m) in enumerate(zip(c['qs'], impl['hist'], model['hist'])):
-        m_tv = norm_model_res(m['model']); m_one = norm_model_res(m['type_var'])
-        if a['type_vars'] != m_tv: why.append(f"query {k} (instance {qi}): type_vars {a['type_vars']} vs model {m_tv}")
-        if a['type_var'] != m_one: why.append(f"query {k} (instance {qi}): type_var {a['type_var']} vs model {m_one}")
+        if m['model'] is None:
+            # the model is instantiated with a source that writes state: it abstains from the second query on
+            why.append(f"query {k} (instance {qi}): no prediction — the library source can leave state behind between two queries: "
+                       f"{model.get('left_behind')}")
+            tags.add(f"{m['kind']}/abstains")
+        else:
+            m_tv = norm_model_res(m['model']); m_one = norm_model_res(m['type_var'])
+            if a['type_vars'] != m_tv: why.append(f"query {k} (instance {qi}): type_vars {a['type_vars']} vs model {m_tv}")
+            if a['type_var'] != m_one: why.append(f"query {k} (instance {qi}): type_var {a['type_var']} vs model {m_one}")
+            tags.add(f"{m['kind']}/{m['model'][0] if m['model'][0] == 'ok' else m['model'][1]}")
         f = spec_fail(m['spec'], a['type_vars'], a['type_var'])
         if f and pfail is None:
             cid, orig = c['insts'][qi]
             asked = [render({'table': c['table'], 'cls': c['insts'][j][0], 'orig': c['insts'][j][1]}).rsplit('; ', 1)[1] for j in c['qs'][:k]]
             pfail = (f"{render({'table': c['table'], 'cls': cid, 'orig': orig})} — query {k} of the history, after queries on "
                      f"{asked if asked else 'nothing'} (instances created beforehand: {len(c['insts'])}): {f}")
-        tags.add(f"{m['kind']}/{m['model'][0] if m['model'][0] == 'ok' else m['model'][1]}")
     return {'corr': not why, 'pfail': pfail, 'nontrivial': any(a['type_vars'][0] == 'ok' for a in impl['hist']),
-            'tag': fam + '/' + (sorted(tags)[0] if len(tags) == 1 else 'mixed'), 'why': '; '.join(why[:4])}
+            'tag': fam + '/' + ('+'.join(sorted(tags)) if len(tags) <= 3 else 'mixed'),
+            'why': '; '.join(why[:4])}
+
+
+FINDING_REGIONS = ['propertyEvaluatedByScan', 'enumValueCollidesWithAttributeName', 'transformationDropsDecoratorAttribute',
+                   'decoratedDunderMethodSkipped', 'decoratedStaticOrClassMethodReported', 'foreignObjectWithDecoratorAttributeReported']
+
+
+def deviations(impl_deco, spec_deco):
+    """how does the answer of the implementation leave what the spec lists?  -> [(text, regions the deviation can belong to)…], every
+    deviation there is"""
+    if impl_deco[0] != 'ok':
+        exc = impl_deco[1]
+        # TypeError: an unhashable object (the dict that type_vars returns) answers to an enum value; anything else escaped from a property
+        return [(f"get_decorated_functions raised {exc}",
+                 ['enumValueCollidesWithAttributeName'] if exc == 'TypeError' else ['propertyEvaluatedByScan'])]
+    want = {k: sorted([[c_, u, st, v] for c_, u, st, v in d], key=json.dumps) for k, d in spec_deco}
+    got = {k: sorted([[a[1], a[2], a[3], v] for a, v in d if a[0] == 'bound'], key=json.dumps) for k, d in impl_deco[1]}
+    if list(got) != list(want):
+        return [(f"members reported {list(got)}, members of the enum {list(want)}", [])]
+    out = []
+    for k, d in impl_deco[1]:
+        for a, v in d:
+            if a[0] in ('typeArg', 'className', 'typeVars'):
+                out.append((f"member {k}: {a} reported — no method of the program", ['enumValueCollidesWithAttributeName']))
+            elif a[0] in ('plainFn', 'clsBound'):
+                out.append((f"member {k}: {a} reported — no bound method of the instance",
+                            ['decoratedStaticOrClassMethodReported', 'enumValueCollidesWithAttributeName']))
+            elif a[0] in ('obj', 'instFn'):
+                out.append((f"member {k}: {a} reported — no method of the program",
+                            ['foreignObjectWithDecoratorAttributeReported', 'enumValueCollidesWithAttributeName']))
+            elif a[0] != 'bound':
+                out.append((f"member {k}: {a} reported — no bound method of the instance", []))
+    for k in want:
+        w = {json.dumps(e[:3]): e[3] for e in want[k]}
+        g = {json.dumps(e[:3]): e[3] for e in got[k]}
+        for key, v in w.items():
+            if key not in g:
+                u = json.loads(key)[1]
+                out.append((f"member {k}: decorated method {key} (value {v}) is missing",
+                            ['decoratedDunderMethodSkipped'] if u >= 2 else ['transformationDropsDecoratorAttribute']))
+            elif g[key] != v:
+                out.append((f"member {k}: method {key} reported with value {g[key]}, decorated with {v}", ['transformationDropsDecoratorAttribute']))
+        for key, v in g.items():
+            if key not in w:
+                out.append((f"member {k}: method {key} reported (value {v}) although it was not decorated with this member",
+                            ['enumValueCollidesWithAttributeName']))
+    return out
 
 
 def judge(case, impl, model):
@@ -1141,6 +1452,7 @@ def judge(case, impl, model):
     if impl['type_var'] != m_one: why.append(f"type_var {impl['type_var']} vs model {m_one}")
     if impl['mro'] != model['mro']: why.append(f"__mro__ {impl['mro']} vs model {model['mro']}")
     pfail = spec_fail(model['spec'], impl['type_vars'], impl['type_var'])
+    finding = None
     if pfail is not None:
         pfail = f"{render(case['c'])}: {pfail}"
     tag = f"{fam}/{model['kind']}/{model['model'][0] if model['model'][0] == 'ok' else model['model'][1]}"
@@ -1171,7 +1483,26 @@ def judge(case, impl, model):
                 elif extra:
                     pfail = f"objects that are not bound methods of the instance reported: {extra}"
         tag = f"{fam}/{'guard' if model['guard'] else 'outside'}/{md[0] if md[0] == 'ok' else md[1]}"
-    return {'corr': not why, 'pfail': pfail, 'nontrivial': nontrivial, 'tag': tag, 'why': '; '.join(why)}
+        if not model['guard'] and pfail is None and model.get('spec_deco') is not None:
+            # outside the guard: the property still demands "exactly the decorated bound methods"; where the implementation leaves that,
+            # the failure belongs to a named region (`guardRegions` of the spec) — a finding as long as the model says the same
+            devs = deviations(impl['deco'], model['spec_deco'])
+            if devs:
+                # what the model of the unchanged code does in this region is the recorded finding; a deviation of the implementation
+                # that the model does not show is a failure of its own — it is the one reported
+                known = {t for t, _ in deviations(m_deco, model['spec_deco'])}
+                fresh = [d for d in devs if d[0] not in known]
+                dev = (fresh or devs)[0]
+                pfail = f"{dev[0]} (regions of the program: {model.get('regions')})"
+                cands = [r for r in dev[1] if r in (model.get('regions') or [])]
+                if not fresh and cands:
+                    finding = cands[0]       # (a difference to the model that is no deviation from the spec stays a correspondence break)
+                elif fresh:
+                    pfail += f"; the unchanged code does not do that: it answers {m_deco}"
+                tag += '/' + (finding or 'unclassified')
+        if not model.get('closures_modelled', True) and case['c'].get('confs'):
+            why.append('the model makes no prediction about stored configured decorators: the source writes shared state / rebinds a captured name')
+    return {'corr': not why, 'pfail': pfail, 'finding': finding, 'nontrivial': nontrivial, 'tag': tag, 'why': '; '.join(why)}
 
 
 def extra_coverage(results):
